@@ -374,3 +374,81 @@ def add_months_end(d, k):
     """month end k months after the month of d"""
     i = month_id(d) + k + 1
     return D(i // 12, i % 12 + 1, 1) - ONE
+
+
+# ------------------------------------------------------------------ family O: objects that crossed a process boundary
+PRODUCER = r"""
+import pickle, sys, warnings
+warnings.simplefilter("ignore")
+from harness import c10, join_common as jc
+import bermuda
+ul, ur, u3 = c10.universes(sys.argv[2])
+t = jc.mk_triangle(ul)
+# touch everything that hashes the metadata, as an application would before storing the triangle
+t.slices; t.right_edge; bermuda.utils.join(t, jc.mk_triangle(ur), "inner"); hash(t.cells[0].metadata); set(c.metadata for c in t.cells)
+pickle.dump(t, open(sys.argv[1], "wb"))
+"""
+CONSUMER = r"""
+import json, pickle, sys, warnings
+warnings.simplefilter("ignore")
+from harness import c10, c11, join_common as jc, coqterm as ct
+import bermuda
+basis = sys.argv[2]
+ul, ur, u3 = c10.universes(basis)
+stored = pickle.load(open(sys.argv[1], "rb"))            # hashed and pickled by ANOTHER interpreter
+local = jc.mk_triangle(ul)                               # the same triangle built here
+right = jc.mk_triangle(ur)
+out = {"equal_to_local": jc.canon_seq(stored.cells) == jc.canon_seq(local.cells), "problems": []}
+P = out["problems"]
+def canon(r):
+    return repr(c10.canon_result(r))
+for left_name, left in (("stored", stored), ("stored+local", jc.mk_triangle(stored.cells[:3] + local.cells[3:]))):
+    for jt in c10.JOIN_TYPES:
+        for on in (None, ["country"], ["lob", "per_occurrence_limit"]):
+            for a, b in ((left, right), (right, left), (left, local)):
+                r = c10.call(lambda: bermuda.utils.join(a, b, jt, on))
+                P += [f"{left_name}: " + x for x in c10.oracle_join(a, b, jt, on, r)]
+                r = c10.call(lambda: a.merge(b, join_type=jt, on=on))
+                P += [f"{left_name}: " + x for x in c10.oracle_join(a, b, jt, on, r, merged=True)]
+    for ts in ([left, right], [right, left, local], [local, left]):
+        P += [f"{left_name}: " + x for x in c10.oracle_coalesce(ts, c10.call(lambda: ts[0].coalesce(ts[1:])))]
+    for a, b in ((left, right), (right, left), (local, left)):
+        P += [f"{left_name}: " + x for x in c10.oracle_statics(a, b, ["prem", "paid"], c10.call(lambda: a.add_statics(b, statics=["prem", "paid"])))]
+        P += [f"{left_name}: " + x for x in c10.oracle_pm(a, b, "_s", c10.call(lambda: a.period_merge(b, suffix="_s")))]
+# C11: one triangle holding stored and locally built cells of the same slices
+mixed = jc.mk_triangle(stored.cells + [jc.with_values(c, {"other": 1}) for c in local.cells])
+for op in ({"kind": "slices"}, {"kind": "right_edge"}, {"kind": "split", "keys": ["lob"]},
+           {"kind": "getitem", "index": ["triple", ["slice", None, None], ["slice", None, None], ["meta", jc.meta_to_json(local.cells[0].metadata)]]}):
+    P += ["mixed triangle: " + x for x in c11.oracle(mixed, op, c11.call_op(mixed, op))]
+out["problems"] = P[:12]
+out["n_problems"] = len(P)
+print("RESULT " + json.dumps(out))
+"""
+
+
+def cross_process_probe(ctx, basis="cum"):
+    """(problems, machinery error): a triangle hashed and pickled under PYTHONHASHSEED=101 is unpickled under
+    PYTHONHASHSEED=202 and joined / merged / coalesced / enriched / grouped with locally built equal cells; the
+    python oracles of C10 / C11 judge the results inside the consumer."""
+    import json
+    import os
+    import subprocess
+
+    from harness.common import PY, REPO, ROOT
+
+    path = ctx.build / f"crossproc_{basis}.pkl"
+    env = dict(os.environ, PYTHONPATH=f"{REPO}:{ROOT}", PYTHONDONTWRITEBYTECODE="1")
+    p1 = subprocess.run([PY, "-c", PRODUCER, str(path), basis], env=dict(env, PYTHONHASHSEED="101"),
+                        capture_output=True, text=True, timeout=300, cwd=str(ROOT))
+    if p1.returncode != 0:
+        return [], "producer failed: " + p1.stderr[-600:]
+    p2 = subprocess.run([PY, "-c", CONSUMER, str(path), basis], env=dict(env, PYTHONHASHSEED="202"),
+                        capture_output=True, text=True, timeout=300, cwd=str(ROOT))
+    line = [ln for ln in p2.stdout.splitlines() if ln.startswith("RESULT ")]
+    if p2.returncode != 0 or not line:
+        return [], "consumer failed: " + (p2.stderr or p2.stdout)[-600:]
+    res = json.loads(line[-1][7:])
+    probs = list(res["problems"])
+    if not res["equal_to_local"]:
+        probs.insert(0, "the unpickled triangle is not cell-for-cell equal to the locally built one")
+    return probs, None
